@@ -1382,11 +1382,18 @@ class ParsedEpytextDocstring(ParsedDocstring):
 
         self._document = new_document('epytext')
 
-        if self._tree is not None:
-            node, = self._to_node(self._tree)
-            # The contents is encapsulated inside a section node. 
-            # Reparent the contents of the second level to the root level. 
-            self._document = set_node_attributes(self._document, children=node.children)
+        try:
+            if self._tree is not None:
+                node, = self._to_node(self._tree)
+                # The contents is encapsulated inside a section node. 
+                # Reparent the contents of the second level to the root level. 
+                self._document = set_node_attributes(self._document, children=node.children)
+        except BaseException:
+            # Do not cache a half-built document: the next caller would get an
+            # empty document instead of the error.
+            self._document = None
+            self._section_slugs = set()
+            raise
         
         return self._document
     
